@@ -707,9 +707,17 @@ class XlsxRowWriter(AbstractRowWriter):
             if isinstance(item, str):
                 # Write strings as explicit strings to prevent strings starting with '=' from being converted to
                 # formulas.
-                self.worksheet.write_string(row_index, column_index, item)
+                write_result = self.worksheet.write_string(row_index, column_index, item)
             else:
-                self.worksheet.write(row_index, column_index, item)
+                write_result = self.worksheet.write(row_index, column_index, item)
+            if write_result != 0:
+                # xlsxwriter reports cells beyond the limits of Excel with a negative result
+                # and otherwise silently skips or truncates them.
+                raise errors.DataFormatError(
+                    "cannot write cell to Excel file because it exceeds the limits of Excel "
+                    "(1048576 rows, 16384 columns, 32767 characters)",
+                    self.location,
+                )
             self.location.advance_cell()
         self.location.advance_line()
 
